@@ -96,10 +96,10 @@ impl Prop for C05 {
     }
     fn plan(&self, tier: Tier) -> Vec<GenSpec> {
         vec![
-            GenSpec::random("reader-image", tier.pick(50_000, 600_000)),
+            GenSpec::random("reader-image", tier.pick(50_000, 2_000_000)),
             GenSpec::enumerated("repo-files", 1),
             // the real `lefrw` binary, built from /repo by ./check for the thorough tier (LVH_BINS); spawned per case
-            GenSpec::random("lefrw-binary", tier.pick(0, 400)),
+            GenSpec::random("lefrw-binary", tier.pick(0, 1_000)),
         ]
     }
     fn run_case(&self, cx: &mut Cx) {
